@@ -40,11 +40,17 @@ def fn_attrs(f): return f[3][1:]
 def fn_args(f): return f[4][1:]
 def fn_ret(f): return opt(f[5])
 
+INT_ATTRS = ('size', 'align', 'address', 'index', 'singleton')
+STR_ATTRS = ('calling_convention',)
+
 def attr_fn(attrs, name):
-    """argument list of the LAST `name(...)` attribute whose single argument is an int/str literal; else None"""
+    """the value of the LAST `name(x)` attribute whose single argument is a literal of the kind pyxis reads for that name
+    (an integer for size / align / address / index / singleton, a string for calling_convention); anything else – no
+    argument, several arguments, a literal of the other kind – is ignored by pyxis and therefore here; None if there is none"""
+    want = ('int',) if name in INT_ATTRS else ('str',) if name in STR_ATTRS else ('int', 'str')
     val = None
     for a in attrs:
-        if tag(a) == 'af' and a[1] == name and len(a) == 3 and tag(a[2]) in ('int', 'str'):
+        if tag(a) == 'af' and a[1] == name and len(a) == 3 and tag(a[2]) in want:
             val = a[2][1]
     return val
 
@@ -198,3 +204,9 @@ def binder(c, own):
                 return list(mu) + [name]
         return None
     return bind
+
+def must_reject_findings(prop, c, impl):
+    """hand-made invalid descriptions carry `(must-reject)`: accepting one is a violation of the property that owns the check"""
+    if find(c, 'must-reject') is not None and outcome_class(impl.get('o3')) == 'ok':
+        return [Finding('O', prop + '/invalid-description-accepted', c[1], '')]
+    return []
